@@ -212,6 +212,11 @@ def _make_path_function(jobs, path):
         # Generate a path function based on the schema detected for jobs.
         path_function = _make_schema_based_path_function(jobs=jobs)
 
+        # Values of different type can have the same string representation, e.g., 1 and "1".
+        _check_path_function_unique(
+            jobs, path_spec="{{auto}}", path_function=path_function
+        )
+
     elif path is False:
         # Just use the job id as path.
         def path_function(job):
